@@ -74,7 +74,7 @@ func (w *World) registerDecimal() {
 			return TupleV{DecV{Conc: true, D: d, OK: err == nil}, errIface(err)}
 		case *FSym:
 			m.stub("decimal.NewFromFloat64(sym) = the float's value (shortest repr; <=19 integer digits assumed)")
-			return TupleV{DecV{L: v.L, OK: true, FromFloat: true}, IfaceV{}}
+			return TupleV{DecV{L: m.val(v), OK: true, FromFloat: true}, IfaceV{}}
 		}
 		panic("decimal.NewFromFloat64")
 	}
@@ -112,17 +112,14 @@ func (w *World) registerDecimal() {
 		// nearest float of a value that may itself have been rounded to 19
 		// digits: two roundings
 		if d.L.IntegerValued() && within53(d.L) {
-			return TupleV{&FSym{L: d.L, Exact: true}, true}
+			return TupleV{m.exactF(d.L), true}
 		}
 		half := m.ctx.Scale(d.L, sym.R(2))
 		if half.IntegerValued() && within53(half) {
-			return TupleV{&FSym{L: d.L, Exact: true}, true}
+			return TupleV{m.exactF(d.L), true}
 		}
-		r1 := m.roundF(d.L)
-		if fs, ok := r1.(*FSym); ok {
-			return TupleV{m.roundF(fs.L), true}
-		}
-		return TupleV{r1, true}
+		// two roundings: 19-digit decimal, then nearest float
+		return TupleV{m.mkF(d.L, rhoMul(ulpHalf, new(big.Rat), true)), true}
 	}
 	x[mp+"Int64"] = func(m *Machine, fn *ssa.Function, a []Value) Value {
 		d := m.decOf(a[0])
